@@ -1,5 +1,6 @@
 """C08 — semaphores conserve permits: no spurious success, no lost signal."""
 import os, re, subprocess
+from tracecheck import run_traces
 from common import sh
 from props.C03 import replay
 
@@ -14,7 +15,7 @@ META = {
     "technique": "Lean 4 proof (balance invariant over ghost lists of slow waiters / posters; omega) + replay of real atomic traces + online permit-count oracle",
 }
 
-THEOREMS = ["C08.no_spurious_success", "C08.conservation", "C08.forever_waiter_released"]
+THEOREMS = ["C08.no_spurious_success", "C08.conservation", "C08.forever_waiter_released", "C08.signal_counter_exact", "C08.F49_as_found"]
 
 
 def deadline_lines(rng, n):
@@ -83,6 +84,8 @@ def run(ctx):
                       {"line": d[0], "real": r, "harness": "harness/lfn.c"}, signature="sema:deadline-early")
     for d, r in late[:3]:
         ctx.broken("L-fn: deadline later than the wall reading + time left + 4 steps: `%s` -> %s" % (d[0], r))
+    # the permit counter at LONG_MAX: one signal too many is refused inside the call, never wrapped (F49)
+    run_traces(ctx, "c08_limit", [[]], None, None, "L-api permit counter limit", "limit", timeout=120)
     ctx.cov["rule"] = ("TES lines: deadlines under passing time; tr_sema: half the threads signal, half wait (polling / timed up to 300 us / both), 2-16 threads, initial values 0-3, perturbed at the semaphore's atomic sites; "
                        "online check of successes <= v + signals started and of timeouts; final drain count; blocked untimed waiters released by equally many signals. "
                        "distinct_nontrivial = dsema_value transitions explained by the model")
